@@ -29,24 +29,34 @@ def isCommentChar (c : Cp) : Bool := isSourceChar c && !isLineTerminatorStart c
 
 /- ---------- positions (property C04) ---------- -/
 
-/-- (line, offset of the line start) of offset `off` in `cps`: one plus the number of line
-    terminators (LF, CR, CRLF — CRLF counts once) that END at or before `off`. -/
-def lineInfo : List Cp → Nat → Nat → Nat → Nat → Nat × Nat
-  -- arguments: remaining text, offset of its head, target offset, current line, current line start
-  | [], _, _, line, ls => (line, ls)
-  | c :: rest, cur, off, line, ls =>
-    if cur ≥ off then (line, ls)
-    else if c = 10 then lineInfo rest (cur + 1) off (line + 1) (cur + 1)
-    else if c = 13 then
-      match rest with
-      | 10 :: rest' =>
-        -- CRLF is one terminator; an offset between CR and LF is still on the old line
-        if cur + 1 ≥ off then (line, ls) else lineInfo rest' (cur + 2) off (line + 1) (cur + 2)
-      | rest' => lineInfo rest' (cur + 1) off (line + 1) (cur + 1)
-    else lineInfo rest (cur + 1) off line ls
+/-- State of the line/column count after some prefix of the source: current line (1-based), offset
+    at which the current line starts, offset reached, and whether the last character was a CR
+    (so that a directly following LF belongs to the same line terminator). -/
+structure PState where
+  line : Nat
+  ls : Nat
+  off : Nat
+  cr : Bool
+  deriving DecidableEq, Repr
 
-def lineOf (cps : List Cp) (off : Nat) : Nat := (lineInfo cps 0 off 1 0).1
-def lineStartOf (cps : List Cp) (off : Nat) : Nat := (lineInfo cps 0 off 1 0).2
+def PState.init : PState := { line := 1, ls := 0, off := 0, cr := false }
+
+/-- one character: LF, CR and CRLF are the line terminators; CRLF counts once -/
+def posStep (s : PState) (c : Cp) : PState :=
+  if c = 10 then
+    if s.cr then { s with ls := s.off + 1, off := s.off + 1, cr := false }
+    else { line := s.line + 1, ls := s.off + 1, off := s.off + 1, cr := false }
+  else if c = 13 then { line := s.line + 1, ls := s.off + 1, off := s.off + 1, cr := true }
+  else { s with off := s.off + 1, cr := false }
+
+/-- the count after the first `off` characters of the source -/
+def posAt (cps : List Cp) (off : Nat) : PState := (cps.take off).foldl posStep PState.init
+
+/-- line of offset `off`: one plus the number of line terminators before it -/
+def lineOf (cps : List Cp) (off : Nat) : Nat := (posAt cps off).line
+/-- offset of the first character of the line containing `off` -/
+def lineStartOf (cps : List Cp) (off : Nat) : Nat := (posAt cps off).ls
+/-- column of offset `off`: distance in characters from the start of its line, plus one -/
 def colOfOffset (cps : List Cp) (off : Nat) : Int := (off : Int) - (lineStartOf cps off : Int) + 1
 
 /- ---------- token classes ---------- -/
